@@ -76,23 +76,51 @@ type cb struct {
 }
 
 // runSegments calls suffix.Segments and records the callbacks; the position
-// of a segment inside sa is recovered from its capacity.
-func runSegments(sa, lcp []int32, minLen, maxLen int, sortSeg bool) (cbs []cb, panicked bool) {
+// of a segment inside sa is recovered from its capacity. The tables are laid
+// out the way a caller with one arena lays them out — [lcp | sa | canaries],
+// with spare capacity behind lcp — so that a callee that appends to or writes
+// behind the slices it is given damages the suffix array or the canaries
+// (clobbered is reported then).
+func runSegments(sa0, lcp0 []int32, minLen, maxLen int, sortSeg bool) (cbs []cb, panicked, clobbered bool) {
 	defer func() {
 		if r := recover(); r != nil {
 			panicked = true
 		}
 	}()
+	n, k := len(lcp0), len(sa0)
+	arena := make([]int32, n+k+8)
+	lcp := arena[:n] // capacity reaches over sa and the canaries
+	copy(lcp, lcp0)
+	sa := arena[n : n+k : n+k]
+	copy(sa, sa0)
+	for i := n + k; i < len(arena); i++ {
+		arena[i] = -0x5a5a5a5
+	}
 	suffix.Segments(sa, lcp, minLen, maxLen, func(m int, seg []int32) {
 		lo := cap(sa) - cap(seg)
 		c := cb{m: m, lo: lo, hi: lo + len(seg)}
-		if sortSeg {
-			sort.Slice(seg, func(i, j int) bool { return seg[i] < seg[j] })
-		}
 		c.seg = append([]int32{}, seg...)
+		if sortSeg {
+			sort.Slice(c.seg, func(i, j int) bool { return c.seg[i] < c.seg[j] })
+		}
 		cbs = append(cbs, c)
 	})
-	return cbs, false
+	for i := range sa {
+		if sa[i] != sa0[i] {
+			clobbered = true
+		}
+	}
+	for i := range lcp {
+		if lcp[i] != lcp0[i] {
+			clobbered = true
+		}
+	}
+	for i := n + k; i < len(arena); i++ {
+		if arena[i] != -0x5a5a5a5 {
+			clobbered = true
+		}
+	}
+	return cbs, false, clobbered
 }
 
 // checkSegments is the brute-force oracle of C10 on an LCP profile.
@@ -178,17 +206,36 @@ func (e *xExec) step(line string) (out string) {
 			ths = [][2]int{{7, 0}, {2, 3}} // every Sort allocates 0.5 MB of bucket tables
 		}
 		for _, th := range ths {
-			sa := make([]int32, len(t))
-			for i := range sa {
-				sa[i] = int32(-77 + i*31)
+			// sa with spare capacity and canaries behind it; t with spare capacity as well
+			arena := make([]int32, len(t)+6)
+			sa := arena[:len(t)]
+			for i := range arena {
+				arena[i] = int32(-77 + i*31)
+			}
+			tt := append(make([]byte, 0, len(t)+9), t...)
+			tail := tt[len(t):cap(tt)]
+			for i := range tail {
+				tail[i] = byte(0xC3 ^ i)
 			}
 			if th[0] == 7 && th[1] == 0 {
-				suffix.Sort(t, sa)
+				suffix.Sort(tt, sa)
 			} else {
-				suffix.VerifSort(t, sa, th[0], th[1])
+				suffix.VerifSort(tt, sa, th[0], th[1])
 			}
-			if !bytes.Equal(t, t0) {
+			if !bytes.Equal(tt, t0) {
 				e.find("C09", "Sort modifies t", "Sort", "")
+			}
+			for i := len(t); i < len(arena); i++ {
+				if arena[i] != int32(-77+i*31) {
+					e.find("C09", "Sort writes behind the suffix array it was given", "Sort", fmt.Sprintf("index=%d", i))
+					break
+				}
+			}
+			for i := range tail {
+				if tail[i] != byte(0xC3^i) {
+					e.find("C09", "Sort writes behind the text it was given", "Sort", fmt.Sprintf("index=%d", i))
+					break
+				}
 			}
 			if i32s(sa) != i32s(want) {
 				e.find("C09", "Sort result is not the suffix array", "Sort", fmt.Sprintf("thresholds=%v got=%s want=%s", th, i32s(sa), i32s(want)))
@@ -244,7 +291,10 @@ func (e *xExec) step(line string) (out string) {
 		for i := range sa {
 			sa[i] = int32(i)
 		}
-		cbs, pan := runSegments(sa, lcp, mn, mx, false)
+		cbs, pan, clob := runSegments(sa, lcp, mn, mx, false)
+		if clob {
+			e.find("C10", "Segments modifies the caller's tables or memory behind them", "Segments", fmt.Sprintf("n=%d min=%d max=%d", len(lcp), mn, mx))
+		}
 		if pan {
 			if mn >= 0 && mn <= mx {
 				e.find("C10", "Segments panics", "Segments", fmt.Sprintf("n=%d min=%d max=%d", len(lcp), mn, mx))
@@ -271,7 +321,10 @@ func (e *xExec) step(line string) (out string) {
 		lcp := make([]int32, len(t))
 		suffix.LCP(t, sa, nil, lcp)
 		lcp0 := append([]int32{}, lcp...)
-		cbs, pan := runSegments(sa, lcp, mn, mx, true)
+		cbs, pan, clob := runSegments(sa, lcp, mn, mx, true)
+		if clob {
+			e.find("C10", "Segments modifies the caller's tables or memory behind them", "Segments(text)", fmt.Sprintf("n=%d min=%d max=%d", len(t), mn, mx))
+		}
 		if pan {
 			e.find("C10", "Segments panics", "Segments", fmt.Sprintf("n=%d min=%d max=%d", len(t), mn, mx))
 			return "panic"
